@@ -197,10 +197,16 @@ def run_case(case) -> Result:
         agent, client = vworld.make_world(vworld.V2C_PROTO, {oid: (tag, content)})
         name, val = vber.typed_value(tag, content)
         nt = content[:1] >= b"\x80" or (isinstance(val, int) and _near_pow2(val))
-        got = vworld.run(client.get(vworld.OID(oid)))
+        try:
+            got = vworld.run(client.get(vworld.OID(oid)))
+        except Exception as e:  # noqa
+            return Result("Client.get raised %s: %s for the well-formed value %s" % (type(e).__name__, e, vber.tlv(tag, content).hex()), nt, cls)
         if vworld.observe(got) != (name, val):
             return Result("Client.get returned %r for %s" % (got, vber.tlv(tag, content).hex()), nt, cls)
-        py = vworld.run(vworld.PyWrapper(client).get(vagent_S(oid)))
+        try:
+            py = vworld.run(vworld.PyWrapper(client).get(vagent_S(oid)))
+        except Exception as e:  # noqa
+            return Result("PyWrapper.get raised %s: %s for the well-formed value %s" % (type(e).__name__, e, vber.tlv(tag, content).hex()), nt, cls)
         want = vber.pythonized(tag, content)
         if py != want or type(py) is not type(want):
             return Result("PyWrapper.get returned %r for %s, expected %r" % (py, vber.tlv(tag, content).hex(), want), nt, cls)
